@@ -1003,6 +1003,13 @@ def array_split_with_chunk_handling(
     return np.array_split(arr, offsets)
 
 
+def _as_array_list(arrays: List[np.ndarray]):
+    """Typed list for numba; object arrays (e.g. strings) cannot be typed, keep a plain list."""
+    if arrays[0].dtype.kind == "O":
+        return list(arrays)
+    return NumbaList(arrays)
+
+
 def _val_to_numpy(
     val: ArrayType1D, as_list: bool = False
 ) -> np.ndarray | NumbaList[np.ndarray]:
@@ -1026,7 +1033,7 @@ def _val_to_numpy(
 
     if isinstance(getattr(val, "dtype", None), np.dtype):
         if as_list:
-            return NumbaList([np.asarray(val)])
+            return _as_array_list([np.asarray(val)])
         else:
             return np.asarray(val)
 
@@ -1047,7 +1054,7 @@ def _val_to_numpy(
         val_list = [np.asarray(val)]
 
     if as_list:
-        return NumbaList(val_list)
+        return _as_array_list(val_list)
     else:
         if len(val_list) > 1:
             val = np.concatenate(val_list)
